@@ -7,9 +7,14 @@ TInit == l = 1
 PROP == IOEnv.PROP
 Step == /\ l <= Len(Rec) /\ l' = l + 1
         /\ IF PROP = "C05" THEN Rec[l].outcome \in Accept(Rec[l].call)
-           ELSE IF PROP = "C01" THEN (Rec[l].outcome = "Ok" => ShapeOK(Rec[l].call, Rec[l].shape))
-           ELSE \* C06 / C17: recency order of a cache built from an ordered source
-                (IF Rec[l].outcome = "Ok" THEN OrderOK(Rec[l].call, Rec[l].order, Rec[l].cap) ELSE TRUE)
+           ELSE IF PROP = "C01" THEN \* (an Ok that the grid does not accept at all is C05's finding; Shape is defined for acceptable calls)
+                ((Rec[l].outcome = "Ok" /\ "Ok" \in Accept(Rec[l].call)) => ShapeOK(Rec[l].call, Rec[l].shape))
+           ELSE \* C06 / C17: recency order of a cache built from an ordered source; and (C17) what a construction carries
+                \* does not depend on WHICH hashers were supplied: the calls that supply hashers build the shape the grid
+                \* defines without reference to any hasher
+                /\ (IF Rec[l].outcome = "Ok" THEN OrderOK(Rec[l].call, Rec[l].order, Rec[l].cap) ELSE TRUE)
+                /\ ((Rec[l].outcome = "Ok" /\ "Ok" \in Accept(Rec[l].call) /\ Rec[l].call.c \in HasherCalls)
+                      => ShapeOK(Rec[l].call, Rec[l].shape))
 TSpec == TInit /\ [][Step]_l
 Accepted ==
   LET d == TLCGet("stats").diameter IN
